@@ -214,9 +214,12 @@ OTHER = (3, 6, 12, 20, 24, 33, 40, 41, 47, 55)     # 41, 47, 55: float32 (k/C)*C
 
 def _gen_spec(rng, quick, idx):
     """a small per-channel MPS net: 2-4 convs (1x1 / 3x3) and optionally a linear head"""
-    sets = [(2, 4, 8), (8, 4, 2), (0, 2, 4, 8)]
+    # every order of the precision tuples: the sorting permutation is its own inverse for ascending,
+    # descending and single-swap orders only; cyclic orders such as (4,8,2) tell `sorted_indexes` from
+    # `inverse_indexes`
+    sets = list(itertools.permutations((2, 4, 8))) + list(itertools.permutations((0, 2, 4, 8)))
     if not quick:
-        sets += [(4, 8, 2), (2, 8), (8, 4, 2, 0), (4, 8)]
+        sets += [(2, 8), (8, 2), (4, 8), (0, 8), (8, 0), (0, 4, 8), (8, 0, 4), (4, 8, 0)]
     wp = sets[idx % len(sets)]
     n = rng.randint(2, 4)
     layers = []
@@ -378,14 +381,18 @@ def _run_e2e(spec, alphas=None):
                 layer = args[1]
                 ta = layer.w_mps_quantizer.theta_alpha.mean(dim=1)
                 rec['layers'][lname]['cost_after'] = float(orig_cc(args[0], layer, ta, *args[2:]))
-    # accepted vectors as printed ("new: [...]"), per layer
-    acc = {}
-    for mm in re.finditer(r"\* Layer '([^']+)' cost decreased from \S+ to \S+ with.*?new:\s*(\[[^\]]*\])",
-                          buf.getvalue(), re.S):
+    # accepted configurations as printed ("precisions: [...] ... new: [...]"), per layer
+    acc, rep = {}, {}
+    for mm in re.finditer(r"\* Layer '([^']+)' cost decreased from \S+ to \S+ with.*?precisions:\s*(\[[^\]]*\])"
+                          r".*?new:\s*(\[[^\]]*\])", buf.getvalue(), re.S):
         try:
-            acc.setdefault(mm.group(1), []).append([float(x) for x in json.loads(mm.group(2))])
+            pr = [float(x) for x in json.loads(mm.group(2))]
+            nw = [float(x) for x in json.loads(mm.group(3))]
         except ValueError:
-            pass
+            continue
+        acc.setdefault(mm.group(1), []).append(nw)
+        rep[mm.group(1)] = [pr, nw]             # the last configuration reported for the layer
+    rec['printed_reported'] = rep
     rec['printed_accepted'] = acc
     mm = re.search(r'Model cost decreased from (\S+) to (\S+)', buf.getvalue())
     rec['printed_total'] = [float(mm.group(1)), float(mm.group(2))] if mm else None
@@ -426,6 +433,19 @@ def _layer_classes(L, prec_before, prec_after):
     }
 
 
+def _reported_counts(rec, lname, precs, w_before):
+    """The configuration the refinement reported last for the layer, in the quantizer's precision
+    order; the old counts if it reported none; None if the report cannot be read."""
+    rep = rec.get('printed_reported', {}).get(lname)
+    if rep is None:
+        return list(w_before)
+    pr, nw = rep
+    nwr = _round_vec(nw)
+    if nwr is None or len(pr) != len(nwr) or sorted(pr) != sorted(float(p) for p in precs):
+        return None
+    return [nwr[pr.index(float(p))] for p in precs]
+
+
 def _e2e_failures(spec, rec):
     """All failures of the end-to-end clauses: list of (key, what, layer).
 
@@ -434,6 +454,8 @@ def _e2e_failures(spec, rec):
       precisions-not-ascending  the count-level search itself went wrong (chosen counts are not an
                                 upward move of the old ones / cost more) and the tuple is not ascending
       search-*                  the same with an ascending tuple (no known cause)
+      applied-vector-permuted   the vector handed to the reassignment is not the configuration the
+                                refinement reported for the layer (counts clause only)
       matrix-not-applied        the layer does not hold the matrix its reassignment call returned
       demotes-with-0bit         count level fine, 0 among the precisions
       top-k-overlap             count level fine, a channel within the top-k of two precisions
@@ -441,6 +463,10 @@ def _e2e_failures(spec, rec):
     """
     out = []
     rose = []
+    # the per-layer reports are usable if some layer was reported, or no layer was changed at all
+    prints_ok = bool(rec.get('printed_reported')) or all(
+        [round(v) for v in L['chosen']] == [sum(1 for x in rec['before'][k] if x == p) for p in L['precs']]
+        for k, L in rec['layers'].items() if 'chosen' in L)
     for lname in rec['order']:
         L = rec['layers'][lname]
         if 'chosen' not in L:
@@ -482,19 +508,32 @@ def _e2e_failures(spec, rec):
             out.append((key, 'layer %s precisions %s: %d channel(s) lowered, e.g. channel %d %d -> %d bit; '
                         'counts %s -> chosen %s' % (lname, precs, len(lowered), lowered[0], b[lowered[0]],
                                                     a[lowered[0]], cl['w_before'], L['chosen']), lname))
-        # clause: per-layer counts are the chosen ones
+        # clause: per-layer counts are the ones the refinement chose = the last configuration it reported
+        # for the layer (the old counts when it reported none); the vector it hands to the reassignment
+        # must be that configuration in the quantizer's precision order
         w_after = [sum(1 for x in a if x == p) for p in precs]
-        if w_after != L['chosen']:
+        reported = _reported_counts(rec, lname, precs, cl['w_before']) if prints_ok else None
+        handed = [round(v) for v in L['chosen']]
+        target = reported if reported is not None else L['chosen']
+        if cl['integral'] and reported is not None and handed != reported:
+            kind = 'permuted' if sorted(handed) == sorted(reported) else 'differs'
+            out.append(('C20:refine:counts:applied-vector-' + kind,
+                        'layer %s precisions %s: the refinement reported counts %s but handed %s to the '
+                        'reassignment' % (lname, precs, reported, handed), lname))
+        if w_after != target:
             if not cl['integral']:
                 key = 'C20:refine:float-residue:counts'
+            elif reported is not None and handed != reported:
+                key = None                      # already reported above
             elif not applied:
                 key = 'C20:refine:counts:matrix-not-applied'
             elif cl['overlap']:
                 key = 'C20:reassign:top-k-overlap'
             else:
                 key = 'C20:refine:counts:unclassified'
-            out.append((key, 'layer %s precisions %s: counts after %s, chosen %s'
-                        % (lname, precs, w_after, L['chosen']), lname))
+            if key:
+                out.append((key, 'layer %s precisions %s: counts after %s, chosen %s'
+                            % (lname, precs, w_after, target), lname))
         rose.append((lname, cl, w_after, L.get('cost_after', 0) > L['costs'][0]))
     # clause: total cost not higher.  The best-so-far argument bounds the cost of the chosen counts of
     # every layer; it carries over to the model only if every layer really got its chosen counts
